@@ -63,14 +63,16 @@ fn new_bytecode<'gc>(
     } = m;
     let bytecode_function = new_bytecode_function(interner, gc, vm, function)?;
 
+    // A module which is compiled from source only refers to globals that exist but a module that
+    // were loaded from bytecode may refer to globals that this vm does not define
     let globals = module_globals
         .into_iter()
         .map(|index| {
             env.get_global(index.definition_name())
-                .expect("ICE: Global is missing from environment")
-                .value
+                .map(|global| global.value)
+                .ok_or_else(|| Error::UndefinedBinding(index.definition_name().into()))
         })
-        .collect::<Vec<_>>();
+        .collect::<Result<Vec<_>>>()?;
 
     // SAFETY No collection are done while we create these functions
     unsafe {
